@@ -88,8 +88,22 @@ class D(RenderDriver):
         if eng:
             return eng
         if not meta:
-            return None
+            try:
+                meta = {"root": gd.from_xml(doc)}
+            except Exception:
+                return None
         root = meta["root"]
+        try:
+            sim0 = gd.simulate_inherited_made_explicit(root)
+            if sim0 is not None:
+                ssrc, sdst = RR.build(gd.to_xml(sim0)), RR.build(out)
+                eps = self.eps_frac * 100
+                pts = conv.sample_points(ssrc, random.Random(1), eps=eps) + [mismatch[0]]
+                st = conv.compare_colors(ssrc, sdst, pts, eps, self.color_tol)
+                if st["mismatch"] is None and st["kept"] >= 30:
+                    return "inherited-value-made-explicit-on-use-target"
+        except Exception:
+            pass
         for mech in ("root-opacity-dropped", "explicit-equal-inherited-dropped-on-use"):
             if mech == "root-opacity-dropped" and "opacity" not in gd.own_props(root):
                 continue
